@@ -91,6 +91,7 @@ func optsFor(sc Scenario) cworld.Opts {
 		// that is in flight while the harness moves the clock to the timer is still acceptable to the KDC
 		o.RenewLifetime = 3600e9
 		o.TicketLifetime = 300e9
+		o.FreshRenewKey = true // a torn (ticket, key) pair is only observable if renewal changes the key
 	}
 	return o
 }
@@ -417,6 +418,12 @@ func RaceBody(reps int) {
 			}
 			close(start)
 			wg.Wait()
+			// the invariants are judged on the free-running executions too (a sample, not an enumeration)
+			for _, v := range r.judge(sc) {
+				if !strings.HasPrefix(v[0], "malformed-request") {
+					fmt.Printf("RACE-INVARIANT %s:%s\t%s\n", v[0], sc.Name, strings.ReplaceAll(v[1], "\n", " "))
+				}
+			}
 			// stop the auto-renewal goroutines of this repetition
 			func() {
 				defer func() { recover() }()
@@ -439,6 +446,13 @@ func racePass(c *engine.Ctx) {
 	}
 	c.Cov["race_pass_runs"] = runs
 	c.Cov["race_reports"] = len(reports)
+	for _, iv := range engine.RaceInvariant {
+		d := ""
+		if len(iv) > 1 {
+			d = iv[1]
+		}
+		c.Violate("race", "free-running:"+iv[0], map[string]interface{}{"what": d}, map[string]interface{}{"cmd": "vcheck-race C11RACE"})
+	}
 	c.Cov["race_reports_in_harness_code"] = len(engine.HarnessRaces)
 	for i, h := range engine.HarnessRaces {
 		if i < 3 {
